@@ -433,6 +433,12 @@ def main(pid, tier, replay, jobs, only=None):
     ctx = Ctx(pid, tier, seed, jobs, level=getattr(mod, "LEVEL", "exploration"), replaying=bool(replay))
     ctx.only = set(only.split(",")) if only else None
     try:
+        import numba
+
+        numba.set_num_threads(min(int(getattr(mod, "THREADS", 2)), numba.config.NUMBA_NUM_THREADS))
+    except Exception:  # noqa: BLE001
+        pass
+    try:
         if replay:
             with open(replay) as f:
                 doc = json.load(f)
